@@ -1346,6 +1346,30 @@ def c08_ite(R):
         "ite_cases: If(cond, value, accumulated-else)",
         f"ite_cases builds `{norm(asg[0].value) if asg else None}`",
     )
+    # a case may be dropped only when its value equals what the expression would yield without it, i.e. the
+    # accumulated else-branch (not the default: an earlier case with the default's value still shadows later ones)
+    for st in (x for x in ast.walk(loop) if isinstance(x, (ast.Continue, ast.Break))):
+        facts = [(t, pol) for t, pol in guards.guards_of(st, stop=loop)]
+        ok = False
+        for t, pol in facts:
+            inner = t.args[0] if isinstance(t, ast.Call) and (dotted(t.func) or "").split(".")[-1] == "is_true" and t.args else t
+            if pol and isinstance(inner, ast.Compare) and len(inner.ops) == 1 and isinstance(inner.ops[0], (ast.Eq, ast.Is)):
+                sides = {ast.unparse(inner.left), ast.unparse(inner.comparators[0])}
+                if sides == {tgt[1], "sofar"}:
+                    ok = True
+            # the other sound idiom: the case can never apply
+            if pol and isinstance(t, ast.Call) and (dotted(t.func) or "").split(".")[-1] == "is_false" and t.args and ast.unparse(t.args[0]) == tgt[0]:
+                ok = True
+        R.check(
+            ok and isinstance(st, ast.Continue),
+            m,
+            st,
+            "ite_cases skips a case only when its value equals the accumulated else-branch",
+            f"ite_cases drops a case under {[('' if p else 'not ') + ast.unparse(t) for t, p in facts]}: only a value equal to "
+            f"the accumulated else-branch (`sofar`) can be skipped; skipping on any other test lets a later overlapping "
+            f"case answer where an earlier one should",
+            construct="ite_cases skip condition",
+        )
     init = [st for st in ic.body if isinstance(st, ast.Assign) and ast.unparse(st.targets[0]) == "sofar"]
     R.check(init and ast.unparse(init[0].value) == "default", m, ic, "ite_cases starts from the default", "ite_cases no longer starts from `default`",
             construct="ite_cases default")
